@@ -25,6 +25,7 @@ the others run plain write sessions; every interleaving up to the preemption bou
 the sessions not hit by the fault end normally and their rows are committed.
 """
 import threading
+import sqlite3
 from vf import core
 from vf.engines import fx
 from vf.seams import dbapi
@@ -60,6 +61,12 @@ def s_ddl_with(w, px):
     with w.orm.db_session(ddl=True):
         w.db.execute('create table if not exists extra (x integer)')
         w.db.execute('insert into extra values (1)')
+def s_ddl_commit(w, px):
+    # a ddl session that goes on after commit(): the second transaction start must not forget that FK checks were on
+    with w.orm.db_session(ddl=True):
+        w.db.execute('create table if not exists extra2 (x integer)')
+        w.orm.commit()
+        w.db.execute('insert into extra2 values (1)')
 def s_raw(w, px):
     with w.orm.db_session:
         w.db.select('select id from "Person"')
@@ -138,7 +145,7 @@ def s_strict(w, px):
         w.E['Person'][1].delete()
 
 SHAPES = dict(ro=(s_ro, 'read'), opt=(s_opt, 'write'), imm=(s_imm, 'write'), ser=(s_ser, 'write'),
-              ddl_drop_create=(s_ddl_drop_create, 'ddl'), ddl_with=(s_ddl_with, 'ddl'), raw=(s_raw, 'raw'),
+              ddl_drop_create=(s_ddl_drop_create, 'ddl'), ddl_with=(s_ddl_with, 'ddl'), ddl_commit=(s_ddl_commit, 'ddl'), raw=(s_raw, 'raw'),
               userconn=(s_userconn, 'userconn'), nested=(s_nested, 'nested'), gen=(s_gen, 'generator'),
               gen_close=(s_gen_close, 'generator'), gen_throw=(s_gen_throw, 'generator'), control=(s_control, 'control'),
               body_raises=(s_body_raises, 'write'), allowed=(s_allowed, 'write'), retry=(s_retry, 'retry'),
@@ -164,6 +171,8 @@ def state_components(w, mon, prefix=''):
         else:
             try:
                 if con.in_transaction: out.append(prefix + 'pooled-connection-in-transaction')
+                # the provider switches FK enforcement on at connect and off only inside a ddl session (base-class call: not a counted driver call)
+                elif not sqlite3.Connection.execute(con, 'PRAGMA foreign_keys').fetchone()[0]: out.append(prefix + 'pooled-connection-foreign-keys-left-off')
             except Exception as e: out.append(prefix + 'pooled-connection-unusable')
     for serial, ref, thread in fx.REGISTRY:
         n = att.get(serial, 0)
@@ -434,8 +443,81 @@ def run_schedules(task):
                         preemption_bound=bound))
     return dict(sub=sub.dump(), stats=stats, fired=fp.fired_total, outcomes=sorted(outcomes))
 
+# ---- part 3: pools that keep ONE connection for good (in-memory databases) --------------------------------------
+# A ddl session switches FK enforcement off and release() switches it on again. A file pool closes the connection of a
+# ddl session, an in-memory pool keeps it: whatever the session leaves on it is what every later session gets.
+KEPT_DBS = (':memory:', ':sharedmemory:')
+KEPT_STEPS = ('ddl', 'write', 'commit', 'rollback', 'flush')
+KEPT_ENDS = ('normal', 'raise', 'rollback-then-normal')
+def kept_cases(tier):
+    import itertools
+    out = []
+    for filename in KEPT_DBS:
+        for kind in ('ddl', 'plain'):
+            for n in range(0, 4 if tier == 'quick' else 5):
+                for steps in itertools.product(KEPT_STEPS, repeat=n):
+                    if kind == 'plain' and 'ddl' in steps: continue
+                    for end in KEPT_ENDS: out.append(dict(filename=filename, kind=kind, steps=list(steps), end=end))
+    return out
+
+def run_kept(case):
+    from pony import orm
+    db = orm.Database()
+    class Owner(db.Entity):
+        id = orm.PrimaryKey(int)
+        pets = orm.Set('Pet')
+    class Pet(db.Entity):
+        id = orm.PrimaryKey(int)
+        owner = orm.Required(Owner)
+    db.bind('sqlite', case['filename']); db.generate_mapping(create_tables=True)
+    with orm.db_session: Owner(id=1); Pet(id=1, owner=1)
+    con = db.provider.pool.con
+    pragma = lambda: sqlite3.Connection.execute(con, 'PRAGMA foreign_keys').fetchone()[0]
+    before = pragma()
+    n = [0]
+    try:
+        with orm.db_session(ddl=(case['kind'] == 'ddl')):
+            for st in case['steps']:
+                n[0] += 1
+                if st == 'ddl': db.execute('create table if not exists extra%d (x integer)' % n[0])
+                elif st == 'write': Owner(id=10 + n[0])
+                elif st == 'commit': orm.commit()
+                elif st == 'rollback': orm.rollback()
+                elif st == 'flush': orm.flush()
+            if case['end'] == 'raise': raise UserError('x')
+            if case['end'] == 'rollback-then-normal': orm.rollback()
+    except UserError: pass
+    out = []
+    if db.provider.pool.con is not con: out.append('kept-connection-replaced')
+    elif con.in_transaction: out.append('kept-connection-in-transaction')
+    elif pragma() != before: out.append('foreign-keys-%s-after-the-session' % ('off' if before else 'on'))
+    if db.provider.transaction_lock.locked(): out.append('transaction-lock-held')
+    if not out:
+        # what a later session relies on: a row that references nothing is refused by the database
+        try:
+            with orm.db_session: db.execute('insert into "Pet" ("id", "owner") values (99, 12345)')
+            out.append('later-session-committed-a-dangling-reference')
+        except orm.core.IntegrityError: pass
+        except Exception as e: out.append('later-session-failed-%s' % type(e).__name__)
+    try: db.disconnect()
+    except Exception: pass
+    return out
+
+def run_kept_chunk(cases):
+    sub = core.Sub()
+    for case in cases:
+        sub.count('kept_connection_sessions')
+        try: bad = run_kept(case)
+        except Exception as e: bad = ['session-raised-%s' % type(e).__name__]
+        if case['kind'] == 'ddl' and len(set(case['steps']) & set(('commit', 'rollback'))): sub.count('kept_ddl_sessions_with_a_second_transaction')
+        for b in bad:
+            sub.violation('kept-connection|%s|%s|%s' % (case['kind'], 'several-transactions' if set(case['steps']) & set(('commit', 'rollback')) else 'one-transaction', b),
+                          dict(kept=case), 'in-memory pool: after a %s session with steps %r ending %s: %s' % (case['kind'], case['steps'], case['end'], b))
+    return dict(sub=sub.dump())
+
 # ---- run / replay ----------------------------------------------------------------------------------------------
 def dispatch(item):
+    if item[0] == 'kept': return ('kept', run_kept_chunk(item[1]))
     if item[0] == 'shape': return ('shape', run_shape(item[1]))
     return ('sched', run_schedules(item[1]))
 
@@ -467,8 +549,11 @@ def run(ctx):
         ctx.violation('check-task-blocked-for-good|%s' % ('shape' if any(k.startswith('shape') for k in kinds) else 'schedule'),
                       dict(unfinished=[repr(u)[:200] for u in unfinished[:20]]),
                       'executions under an injected fault never returned (a lock or connection is held for good): %s' % kinds[:8])
+    kc = kept_cases(ctx.tier)
+    items += [('kept', kc[i::16]) for i in range(16)]
     for kind, r in ctx.pmap(dispatch, ctx.shuffled(items), hang_timeout=300 if ctx.quick else 1200, on_hang=on_hang):
         core.absorb(ctx, r['sub'])
+        if kind == 'kept': continue
         if kind == 'shape':
             executions += r['st']['executions']; fired += r['st']['fired']; outcomes.update(r['outcomes'])
         else:
@@ -478,6 +563,8 @@ def run(ctx):
     c = ctx.counters
     ctx.guard('session shapes explored (cold + warm + fresh-thread pool)', c.get('shapes', 0), nshape_items)
     ctx.guard('fault plans in which the fault fired', fired, 1500)
+    ctx.guard('sessions on pools that keep one connection', c.get('kept_connection_sessions', 0), 300)
+    ctx.guard('ddl sessions with a second transaction on a kept connection', c.get('kept_ddl_sessions_with_a_second_transaction', 0), 50)
     ctx.guard('distinct post-fault outcomes', len(outcomes), 100)
     ctx.guard('plans after which the pool had dropped the connection', c.get('plans_after_which_the_pool_dropped_the_connection', 0), 100)
     ctx.guard('programs that ended with an exception', c.get('programs_ending_with_exception', 0), 1000)
